@@ -681,6 +681,8 @@ class Interp:
 
     def iter_values(self, it):
         """Concrete list of iteration values, or None if the trip count is symbolic."""
+        if type(it) in getattr(self.reg, "iter_models", {}):
+            return None  # a property's own iterable value (C19: dict with symbolic key set): always a symbolic loop
         if isinstance(it, SymRange):
             return it.concrete()
         if isinstance(it, SymArr):
@@ -920,6 +922,9 @@ class Interp:
 
     def iter_family(self, it):
         """(trip count, getter(k)->value) for a symbolic iterable."""
+        h = getattr(self.reg, "iter_models", {}).get(type(it))
+        if h is not None:
+            return h(self, it)  # reg.iter_models[type] = handler(interp, value) -> (count, getter)
         if isinstance(it, SymRange):
             return it.count(), lambda k: it.start + k * it.step
         if isinstance(it, SymArr):
